@@ -163,12 +163,12 @@ func vfE8LProbe() {
 	{
 		opts := vfE8LOpts(dir)
 		opts.FilenameFormat = "seal.log"
-		os.WriteFile(filepath.Join(dir, "o", "seal.log"), []byte("x"), 0o644)
+		os.WriteFile(filepath.Join(dir, "o", "seal.log"), []byte("ab\ncd"), 0o644)
 		f := &FileLogger{logf: func(lvl lg.LogLevel, f string, args ...interface{}) {}, opts: opts, topic: "t",
 			filenameFormat: "seal.log"}
 		f.updateFile()
 		raw, _ := os.ReadFile(filepath.Join(dir, "o", "seal.log"))
-		vfE8LProbeSL = string(raw) == "x\n"
+		vfE8LProbeSL = string(raw) == "ab\ncd\n"
 		f.Close()
 	}
 	// --- one write: real router() on one message
@@ -314,10 +314,13 @@ func TestVerifToFileLinesChild(t *testing.T) {
 		os.Exit(0)
 	}
 	switch name {
-	case "torn-pre", "clean-pre", "torn-pre-rotsize", "torn-pre-workdir":
+	case "torn-pre", "clean-pre", "torn-pre-rotsize", "torn-pre-workdir", "torn-pre-1byte":
 		pre := "rec0\nbodyA"
 		if name == "clean-pre" {
 			pre = "rec0\nbodyA\n"
+		}
+		if name == "torn-pre-1byte" {
+			pre = "x"
 		}
 		dir, tmpl, file, hasRev := "o", "lines.log", "lines.log", false
 		opts.FilenameFormat = "lines.log"
@@ -328,7 +331,7 @@ func TestVerifToFileLinesChild(t *testing.T) {
 			opts.WorkDir = filepath.Join(root, "w")
 			dir = "w"
 		}
-		if name != "torn-pre" && name != "clean-pre" {
+		if name == "torn-pre-rotsize" || name == "torn-pre-workdir" {
 			opts.FilenameFormat = "lines<REV>.log"
 			tmpl, file, hasRev = "lines<REV>.log", "lines-000000.log", true
 		}
@@ -472,7 +475,7 @@ func TestVerifToFileLines(t *testing.T) {
 	vo := vfOpen("tflines")
 	defer vo.Close()
 	fmt.Printf("LINESPROBE one_write=%d seals_tail=%d\n", vfE8LB(vfE8ProbeOneWrite()), vfE8LB(vfE8ProbeSealsTail()))
-	scenarios := [][]string{{"torn-pre"}, {"clean-pre"}, {"torn-pre-rotsize"}, {"torn-pre-workdir"}, {"kill1", "kill2"}, {"two-routers"}}
+	scenarios := [][]string{{"torn-pre"}, {"clean-pre"}, {"torn-pre-rotsize"}, {"torn-pre-workdir"}, {"torn-pre-1byte"}, {"kill1", "kill2"}, {"two-routers"}}
 	for _, sc := range scenarios {
 		label := sc[0]
 		if label == "kill1" {
